@@ -7,6 +7,7 @@
 // Modes: --mode pbt | enum | replay | merge.
 #pragma once
 #include <rapidcheck.h>
+#include <cerrno>
 #include <csignal>
 #include <cstdarg>
 #include <cstdint>
@@ -116,6 +117,7 @@ struct State {
     std::function<std::string()> cur_ser;
     std::string failout;
     bool in_case = false;
+    unsigned ambient = 0;  // index of the ambient errno value for the next case
     bool verbose = false;
     char *trace = nullptr;  // shared file mapping "<failout>.cur": the case being executed (survives _exit/abort)
     size_t trace_sz = 1 << 22;
@@ -245,7 +247,12 @@ bool run_one(const Harness<Case> &h, const Case &c, bool record) {
         s.trace[n] = '\n';
         s.trace[n + 1] = 0;
     }
+    // ambient thread state a caller may arrive with: errno left behind by unrelated calls. It rotates with the case counter; replay and
+    // shrinking try all values (run_all_ambient), so a failure that needs one particular value reproduces from the case file alone.
+    static const int AMBIENT_ERRNO[4] = {0, ERANGE, EDOM, EINVAL};
+    errno = AMBIENT_ERRNO[s.ambient & 3];
     h.check(c);
+    errno = 0;
     s.in_case = false;
     if (s.trace) s.trace[0] = 0;
     bool ok = !s.cur_fail;
@@ -257,6 +264,7 @@ bool run_one(const Harness<Case> &h, const Case &c, bool record) {
                 s.cur_discard = true;
             }
     }
+    if (record) s.ambient++;
     if (record && !s.cur_discard) {
         s.evaluations++;
         if (s.cur_nontrivial) {
@@ -269,6 +277,17 @@ bool run_one(const Harness<Case> &h, const Case &c, bool record) {
     }
     s.cur_ser = nullptr;
     return ok;
+}
+
+// replay / shrinking: the case under every ambient value; false at the first failure (verdict fields are those of the failing run)
+template <class Case>
+bool run_all_ambient(const Harness<Case> &h, const Case &c) {
+    State &s = S();
+    for (unsigned a = 0; a < 4; a++) {
+        s.ambient = a;
+        if (!run_one(h, c, false)) return false;
+    }
+    return true;
 }
 
 inline void write_fragment(const std::string &out, const std::string &fpfile, bool failed,
@@ -405,7 +424,7 @@ int harness_main(int argc, char **argv, const Harness<Case> &h) {
         }
         std::vector<std::string> known = s.known;
         s.known.clear();  // replay judges the raw verdict; signature printed
-        bool ok = run_one(h, c, true);
+        bool ok = run_all_ambient(h, c);
         if (ok) {
             printf("REPLAY pass %s\n", h.ser(c).c_str());
             return 0;
@@ -444,7 +463,7 @@ int harness_main(int argc, char **argv, const Harness<Case> &h) {
                 // (only the minimality of the reported case depends on this budget, never the verdict)
                 if (++shrinkEvals > 600 || time(nullptr) - shrinkStart > 90) return;
             }
-            bool good = run_one(h, c, !shrinking);
+            bool good = shrinking ? run_all_ambient(h, c) : run_one(h, c, true);
             if (s.cur_discard && good) RC_DISCARD("discard");
             if (!good) {
                 if (!shrinking) shrinkStart = time(nullptr);
